@@ -88,7 +88,21 @@ pub fn recover(signature: [u8; 64], message: &Message) -> Result<PublicKey, Erro
     let (sig, recid) = decode_signature(signature);
     let sig =
         k256::ecdsa::Signature::from_slice(&sig).map_err(|_| Error::InvalidSignature)?;
-    let vk = VerifyingKey::recover_from_prehash(&**message, &sig, recid.into())
+    let recid: RecoveryId = recid.into();
+
+    // The secp256k1 backend recovers a key from a signature with a non-normalized
+    // (high) `s`, while `recover_from_prehash` rejects it. `(r, s, v)` and its
+    // normalized form `(r, n - s, !v)` recover the same key, so recover from the
+    // normalized form to keep both backends in agreement.
+    let (sig, recid) = match sig.normalize_s() {
+        Some(normalized) => (
+            normalized,
+            RecoveryId::new(!recid.is_y_odd(), recid.is_x_reduced()),
+        ),
+        None => (sig, recid),
+    };
+
+    let vk = VerifyingKey::recover_from_prehash(&**message, &sig, recid)
         .map_err(|_| Error::InvalidSignature)?;
     Ok(PublicKey::from(&vk))
 }
